@@ -109,6 +109,7 @@ type setTable [256]*template.Template
 type World struct {
 	c        *Case
 	sets     setTable
+	handles  [16]*template.Template // handles kept by Lookup ops with Hold > 0
 	disk     map[string]string
 	faultOps map[int]bool // nil: all faults of the case apply; else only for these op ids
 	noFaults bool
@@ -681,6 +682,9 @@ func (w *World) recv(op *Op) *template.Template {
 	if root == nil {
 		return nil
 	}
+	if op.Held > 0 && op.Held < len(w.handles) && w.handles[op.Held] != nil {
+		return w.handles[op.Held]
+	}
 	if op.Recv != "" {
 		if t := root.Lookup(op.Recv); t != nil {
 			return t
@@ -930,6 +934,9 @@ func (w *World) do(op *Op, res *Result) {
 		res.Out = []byte(h.String())
 	case opLookup:
 		lt := t.Lookup(op.Name)
+		if op.Hold > 0 && op.Hold < len(w.handles) {
+			w.handles[op.Hold] = lt
+		}
 		res.Found = lt != nil
 		if lt != nil {
 			res.Target = lt.Name()
